@@ -314,16 +314,52 @@ func TestScenes(t *testing.T) {
 				anyNeg = true
 			}
 		}
-		// precondition of the property: the surface lies inside the sampled volume. A negative
-		// sample on the outermost lattice layer means the solid reaches the boundary (shapes whose
-		// bounding box does not enclose them: the C01 findings) - such scenes are out of scope here.
-		onEdge := func(cs []float64, x float64) bool { return x <= cs[0]+1e-9*h || x >= cs[len(cs)-1]-1e-9*h }
+		// precondition of the property: the surface lies inside the shape's bounding box. It is decided
+		// on the box itself (a 14x14 grid on each face plus every sampled point on or outside the box),
+		// not on the lattice the renderer chose: shapes whose box does not enclose them (the C01
+		// findings) are out of scope here and counted.
+		insideBox := func(p v3.Vec) bool {
+			e := 1e-9 * h
+			return p.X > nb.Min.X+e && p.Y > nb.Min.Y+e && p.Z > nb.Min.Z+e && p.X < nb.Max.X-e && p.Y < nb.Max.Y-e && p.Z < nb.Max.Z-e
+		}
+		reaches := false
 		for i, p := range rb.Pts {
-			if rb.Val[i] < 0 && (onEdge(ax.X, p.X) || onEdge(ax.Y, p.Y) || onEdge(ax.Z, p.Z)) {
-				rec.Count("discarded:solid-reaches-the-sampled-boundary", 1)
-				rec.Case(false, "", "discarded")
-				return
+			if rb.Val[i] < 0 && !insideBox(p) {
+				reaches = true
 			}
+		}
+		const G = 14
+		nsz := nb.Size()
+		for i := 0; i <= G && !reaches; i++ {
+			for j := 0; j <= G && !reaches; j++ {
+				u, w := float64(i)/G, float64(j)/G
+				for _, p := range []v3.Vec{
+					{X: nb.Min.X, Y: nb.Min.Y + u*nsz.Y, Z: nb.Min.Z + w*nsz.Z}, {X: nb.Max.X, Y: nb.Min.Y + u*nsz.Y, Z: nb.Min.Z + w*nsz.Z},
+					{X: nb.Min.X + u*nsz.X, Y: nb.Min.Y, Z: nb.Min.Z + w*nsz.Z}, {X: nb.Min.X + u*nsz.X, Y: nb.Max.Y, Z: nb.Min.Z + w*nsz.Z},
+					{X: nb.Min.X + u*nsz.X, Y: nb.Min.Y + w*nsz.Y, Z: nb.Min.Z}, {X: nb.Min.X + u*nsz.X, Y: nb.Min.Y + w*nsz.Y, Z: nb.Max.Z}} {
+					if s.Evaluate(p) < 0 {
+						reaches = true
+					}
+				}
+			}
+		}
+		if reaches {
+			rec.Count("discarded:solid-reaches-its-bounding-box", 1)
+			rec.Case(false, "", "discarded")
+			return
+		}
+		// the lattice must cover the bounding box: a renderer that stops short of it loses geometry.
+		// The octree samples only the cubes it does not prune, so the extent of its lattice is taken from
+		// a calibration render of a small positive constant field in the same box (every cube visited).
+		if cells <= 32 {
+			cal := &lat.Recorder3{S: lat.Const3{V: 1e-6 * h, BB: nb}}
+			render.ToTriangles(cal, r.mk(cells))
+			cx := lat.AxesOf3(cal.Pts, 1e-9*h)
+			if e := 1e-9 * h; cx.X[0] > nb.Min.X+e || cx.Y[0] > nb.Min.Y+e || cx.Z[0] > nb.Min.Z+e ||
+				cx.X[len(cx.X)-1] < nb.Max.X-e || cx.Y[len(cx.Y)-1] < nb.Max.Y-e || cx.Z[len(cx.Z)-1] < nb.Max.Z-e {
+				rec.Violation(t, "MarchingCubes:"+r.name+":lattice-does-not-cover-bounding-box", "%s renderer, %d cells: the sampled lattice %v..%v does not cover the bounding box %v", r.name, cells, v3.Vec{X: cx.X[0], Y: cx.Y[0], Z: cx.Z[0]}, v3.Vec{X: cx.X[len(cx.X)-1], Y: cx.Y[len(cx.Y)-1], Z: cx.Z[len(cx.Z)-1]}, nb)
+			}
+			rec.Add("scene:lattice-coverage-checked", 1)
 		}
 		step := (ax.X[len(ax.X)-1] - ax.X[0]) / float64(len(ax.X)-1)
 		if r.name == "octree" {
